@@ -459,7 +459,7 @@ theorem step_seg (s : Sys) (op : Op) (i : Nat) (ch : QChan) (hseg : segOp i op =
     have keepT : ∃ ch', chanOf ⟨n, q, cap, true, nodes, owners⟩ i = some (some ch') ∧
         OwnerInv ch' (Sys.storeOf ⟨n, q, cap, true, nodes, owners⟩ i) := ⟨ch, hchT, hiT⟩
   · cases op with
-    | cfg _ _ _ => simp [segOp] at hseg
+    | cfg _ _ _ _ => simp [segOp] at hseg
     | install _ _ _ _ => simp [segOp] at hseg
     | crash j =>
       simp only [segOp, bne_iff_ne, ne_eq] at hseg
@@ -535,7 +535,7 @@ theorem step_seg (s : Sys) (op : Op) (i : Nat) (ch : QChan) (hseg : segOp i op =
                 exact (commit_inv ⟨n, q, cap, true, nodes, owners⟩ j e c _ acks ch hchT hiT).2 rc hres
               · cases hrc
             · cases hrc
-    | cfg _ _ _ => simp [receiptOf] at hrc
+    | cfg _ _ _ _ => simp [receiptOf] at hrc
     | install _ _ _ _ => simp [receiptOf] at hrc
     | crash _ => simp [receiptOf] at hrc
     | restart _ => simp [receiptOf] at hrc
@@ -576,17 +576,18 @@ theorem chain_disjoint {l : List PRec} (h : ChainP l) : ∀ p ∈ l, ∀ q ∈ l
     · left; exact h.older_le p hp'
     · exact ih h.tail p hp' q hq' hne
 
-/-- no two stored proposals share a command -/
-def CmdUniq (s : Store) : Prop := s.props.Pairwise (fun p q => p.m.cmd ≠ q.m.cmd)
+/-- no two stored proposals share a command (and the store is not of the `fresh` kind, where
+    that is false: see c03_unkeyed_counterexample) -/
+def CmdUniq (s : Store) : Prop := s.fresh = false ∧ s.props.Pairwise (fun p q => p.m.cmd ≠ q.m.cmd)
 
 theorem appendDecision_append_fresh {s : Store} {m : Manifest} {cs : List Nat} {es : List Ident}
-    (h : s.appendDecision m cs = .append es) : s.byCmd m.cmd = none := by
+    (hf : s.fresh = false) (h : s.appendDecision m cs = .append es) : s.byCmd m.cmd = none := by
   cases hb : s.byCmd m.cmd with
   | none => rfl
   | some pc =>
     exfalso
     unfold Store.appendDecision at h
-    simp only [hb, Option.isSome_some, true_or, if_true] at h
+    simp only [hf, Bool.false_eq_true, false_and, if_false, hb, Option.isSome_some, true_or, if_true] at h
     repeat' (split at h)
     all_goals cases h
 
@@ -594,10 +595,10 @@ theorem appendExact_cmdUniq (s : Store) (m : Manifest) (cs : List Nat) (h : CmdU
   unfold Store.appendExact
   cases hd : s.appendDecision m cs with
   | append es =>
-    have hf := appendDecision_append_fresh hd
+    have hf := appendDecision_append_fresh h.1 hd
     unfold CmdUniq
     simp only [List.pairwise_cons]
-    refine ⟨fun q hq he => ?_, h⟩
+    refine ⟨h.1, fun q hq he => ?_, h.2⟩
     unfold Store.byCmd at hf
     have := List.find?_eq_none.mp hf q hq
     simp only [decide_eq_true_eq] at this
@@ -640,7 +641,7 @@ theorem replace_cmdUniq (s : Store) (e : RState) (k : Nat) (ps : List PRec) (c :
     · cases h
     · rename_i next ha
       cases h
-      have hk : CmdUniq ⟨s.props.filter (fun p => p.m.last ≤ k), s.hw⟩ := List.Pairwise.filter _ hu
+      have hk : CmdUniq ⟨s.props.filter (fun p => p.m.last ≤ k), s.hw, s.fresh⟩ := ⟨hu.1, List.Pairwise.filter _ hu.2⟩
       exact appendAll_cmdUniq ps _ next hk ha
 
 def UniqRel (a b : Store) : Prop := CmdUniq a → CmdUniq b
